@@ -23,6 +23,9 @@ pub struct Case {
     /// the source reports its exact remaining length via size_hint
     #[serde(default)]
     pub exact_size: bool,
+    /// a consumer that advances with Iterator::nth (skip / step_by go through it): the skips
+    #[serde(default)]
+    pub nth_schedule: Vec<usize>,
 }
 
 pub struct C15;
@@ -224,6 +227,54 @@ fn exec<L: LangInterpreter>(l: &L, case: &Case, stats: &mut Stats) -> RunResult 
         Err(p) => return viol("O2-cancellation-prefix", format!("cancelled lazy run panicked: {p}"), events),
     }
 
+    // O8 a consumer that uses the iterator adaptors gets the same occurrences
+    if !case.nth_schedule.is_empty() {
+        let log_n = Log::new();
+        let r = guarded(|| {
+            let src = SimSource { toks, next: 0, log: &log_n, exact_size: case.exact_size };
+            log_n.in_request.set(true);
+            let mut it = find_numbers_iter(src, l, thr);
+            let mut got: Vec<(usize, Option<Occ>)> = vec![];
+            let mut idx = 0usize;
+            for &n in &case.nth_schedule {
+                let o = it.nth(n).map(Occ::from);
+                let done = o.is_none();
+                got.push((idx + n, o));
+                idx += n + 1;
+                if done {
+                    break;
+                }
+            }
+            // whatever is left, counted
+            let rest = it.count();
+            (got, idx, rest)
+        });
+        match r {
+            Ok((got, idx, rest)) => {
+                for (want_idx, o) in &got {
+                    let want = b.get(*want_idx);
+                    if o.as_ref() != want {
+                        return viol(
+                            "O8-adaptors-agree",
+                            format!("lang={} thr={} nth schedule {:?}: item #{want_idx} came back as {:?}, batch has {:?}; stream: {}", pool.code, case.thr, case.nth_schedule, o.as_ref().map(|x| x.text.clone()), want.map(|x| x.text.clone()), fmt_toks(toks)),
+                            events,
+                        );
+                    }
+                }
+                let ended = got.last().map(|g| g.1.is_none()).unwrap_or(false);
+                if !ended && idx + rest != b.len() && idx <= b.len() {
+                    return viol(
+                        "O8-adaptors-agree",
+                        format!("lang={} thr={} nth schedule {:?} then count(): {} items consumed + {} counted, batch has {}; stream: {}", pool.code, case.thr, case.nth_schedule, idx, rest, b.len(), fmt_toks(toks)),
+                        events,
+                    );
+                }
+                stats.hit("fault.consumer_uses_nth");
+            }
+            Err(p) => return viol("O8-adaptors-agree", format!("nth/count consumer panicked: {p}"), events),
+        }
+    }
+
     // O5 separation hint
     let prev_nonglue: Vec<Option<usize>> = {
         let mut v = Vec::with_capacity(n);
@@ -401,7 +452,11 @@ impl Check for C15 {
         }
         let requests = *rng.pick(&[0usize, 1, 1, 2, 3, 5, 1000, 1000]);
         let extra_polls = rng.below(4);
-        Case { lang, concrete, thr, toks, requests, extra_polls, exact_size: rng.chance(1, 2) }
+        {
+            let exact_size = rng.chance(1, 2);
+            let nth_schedule: Vec<usize> = if rng.chance(1, 3) { (0..rng.range(1, 4)).map(|_| *rng.pick(&[0usize, 0, 1, 1, 2, 3])).collect() } else { vec![] };
+            Case { lang, concrete, thr, toks, requests, extra_polls, exact_size, nth_schedule }
+        }
     }
 
     fn execute(&self, case: &Case, stats: &mut Stats) -> RunResult {
@@ -448,6 +503,14 @@ impl Check for C15 {
         }
         if case.exact_size {
             out.push(Case { exact_size: false, ..case.clone() });
+        }
+        if !case.nth_schedule.is_empty() {
+            out.push(Case { nth_schedule: vec![], ..case.clone() });
+            for i in 0..case.nth_schedule.len() {
+                let mut c = case.clone();
+                c.nth_schedule.remove(i);
+                out.push(c);
+            }
         }
         if case.requests > 0 {
             out.push(Case { requests: 0, ..case.clone() });
@@ -496,6 +559,7 @@ impl Check for C15 {
             "fault.poll_past_end",
             "fault.hint_separated",
             "fault.hint_nan",
+            "fault.consumer_uses_nth",
         ]
     }
 }
